@@ -65,7 +65,9 @@ def g_case(hist, out):
     if hist.get("exec"):
         ops.append("OPersist %s" % g_entry(ent[-1]))      # genesis, executed by the driver's bootstrap
     for i, o in enumerate(hist["ops"]):
-        if o["op"] in ("p", "x"):
+        if o["op"] == "y":
+            ops.append("OReexec %s" % (g_entry(ent[i]) if i in ent else DUMMY_ENTRY))
+        elif o["op"] in ("p", "x"):
             ops.append("OPersist %s" % (g_entry(ent[i]) if i in ent else DUMMY_ENTRY))
         elif o["op"] == "r":
             ops.append("ORollback %d" % o["t"])
@@ -227,7 +229,7 @@ def dup_trigger(hist, out):
 
 def nontrivial(hist, out):
     if hist.get("exec"):
-        return sum(1 for o in hist["ops"] if o["op"] == "x" and o["n"] > 0) >= 2
+        return sum(1 for o in hist["ops"] if o["op"] in ("x", "y") and o["n"] > 0) >= 2
     acc_p = sum(1 for o, s in zip(hist["ops"], out["steps"]) if o["op"] == "p" and s["code"] == 0)
     acc_r = any(o["op"] == "r" and s["code"] == 0 and o["t"] < 10 ** 6 for o, s in zip(hist["ops"], out["steps"]))
     rej = any(s["code"] != 0 for s in out["steps"])
@@ -250,16 +252,62 @@ def run_hists(ctx, exe, hists):
     return outs
 
 
-def gen_exec(r, nops):
-    """executor-level: blocks of native transfers (some failing) executed by the real executor, restarts"""
+def gen_exec(r, nops, redeliver=True):
+    """executor-level: blocks of native transfers (some failing) executed by the real executor,
+    restarts, and RE-DELIVERY of a different block for an already executed height k at every depth
+    below the head (the executor's rollbackBlocks path), followed by further blocks"""
     ops = []
+    head = 1                       # genesis
     for _ in range(nops):
-        if r.random() < 0.8:
-            n = r.choice([0, 1, 2, 3, 5, 9])
-            ops.append(dict(op="x", n=n, bad=r.randrange(0, n + 1) if n and r.random() < 0.4 else 0))
+        x = r.random()
+        n = r.choice([0, 1, 2, 3, 5, 9])
+        bad = r.randrange(0, n + 1) if n and r.random() < 0.4 else 0
+        if redeliver and head >= 2 and x < 0.3:
+            k = r.randrange(2, head + 1)         # any depth: k = head is the common case, k < head the deep one
+            ops.append(dict(op="y", k=k, n=n, bad=bad))
+            head = k
+        elif x < 0.88 and head < 10:
+            ops.append(dict(op="x", n=n, bad=bad))
+            head += 1
         else:
             ops.append(dict(op="o"))
-    return dict(exec=True, kh=sum(1 for o in ops if o["op"] == "x") + 3, ops=ops)
+    return dict(exec=True, kh=12, ops=ops)
+
+
+def exec_redelivery_ladder(depth):
+    """head 2+depth, then a different block for every height from the head down to 2, each followed by
+    blocks up to the old head again: heights 2..h, k, k+1..h for every k (2,3,4,5,3,4,5 and all others)"""
+    ops = [dict(op="x", n=1 + i % 3, bad=0) for i in range(depth + 1)]
+    head = 2 + depth
+    for k in range(head, 1, -1):
+        ops.append(dict(op="y", k=k, n=2, bad=0))
+        ops += [dict(op="x", n=1, bad=0) for _ in range(head - k)]
+    return dict(exec=True, kh=head + 2, ops=ops)
+
+
+def exec_valid(hist):
+    head = 1
+    for o in hist["ops"]:
+        if o["op"] == "x":
+            head += 1
+        elif o["op"] == "y":
+            if not (2 <= o["k"] <= head):
+                return False
+            head = o["k"]
+    return True
+
+
+def deep_redelivery(hist):
+    """a block strictly below the executor head is re-delivered"""
+    head = 1
+    for o in hist["ops"]:
+        if o["op"] == "x":
+            head += 1
+        elif o["op"] == "y":
+            if o["k"] < head:
+                return True
+            head = o["k"]
+    return False
 
 
 def shrink(ctx, exe, hist, bad):
@@ -279,6 +327,9 @@ def shrink(ctx, exe, hist, bad):
             # par references by op index shift: drop them when ops are removed
             cand["ops"] = [dict((k, v) for k, v in o.items() if k != "par" or v < 0) for o in cand["ops"]]
             cand["kh"] = kh_of(cand["ops"]) if not cand.get("exec") else cand["kh"]
+            if cand.get("exec") and not exec_valid(cand):
+                i += 1
+                continue
             outs = run_hists(ctx, exe, [cand])
             if outs:
                 vs = judge(ctx, [cand], outs, tag="C09s")
@@ -376,10 +427,13 @@ def run_inner(ctx):
                 hists.append(gen_structured(r, full=r.random() < 0.5, nops=r.randrange(4, 12), want_dup=True))
             else:
                 hists.append(gen_malformed(r, r.randrange(3, 11)))
-        for i in range(12 if ctx.quick else 300):
-            hists.append(gen_exec(r, r.randrange(2, 8)))
+        hists.append(exec_redelivery_ladder(3))
+        for i in range(14 if ctx.quick else 400):
+            hists.append(gen_exec(r, r.randrange(3, 12)))
         dist = dict(corpus=ncorp, histories=len(hists), full=sum(1 for h in hists if h.get("full")),
                     executor_level=sum(1 for h in hists if h.get("exec")),
+                    executor_redeliveries=sum(1 for h in hists if h.get("exec") for o in h["ops"] if o["op"] == "y"),
+                    executor_deep_redelivery_histories=sum(1 for h in hists if h.get("exec") and deep_redelivery(h)),
                     ops=sum(len(h["ops"]) for h in hists))
         kinds = {}
         B = 300
